@@ -390,6 +390,7 @@ def replay(path, repo):
         env["VERIF_REPLAY_VALUES"] = vals
         env["RUSTFLAGS"] = (env.get("RUSTFLAGS", "") + " --cfg verif_replay").strip()
         env["CARGO_TARGET_DIR"] = os.path.join(VERIF, ".cache", "replay_target")
+        env["RUSTUP_TOOLCHAIN"] = "1.88.0"
         cmd = ["cargo", "test", "--offline", "--lib", "--", rp["harness"], "--nocapture", "--test-threads", "1"]
         p = subprocess.run(cmd, cwd=os.path.join(scratch, g.get("crate", ".")), env=env, stdout=subprocess.PIPE,
                            stderr=subprocess.STDOUT, text=True)
